@@ -158,6 +158,30 @@ def gatherer_accounting(ob, tier):
         bad.append("a message can be processed without being archived (%s)" % v)
     w1 = [q([g])[0] for g in gs]
     res["witness_ok"] = all(x == "sat" for x in w1) and len(fields) == 2
+    # has_finished is exactly ok + errors >= expected_responses (terminal answers only:
+    # Processing notices, which are archived too, must not count)
+    src = open(mirrun.REPO + "/bin/src/command/server.rs").read()
+    m = re.search(r"pub struct DefaultGatherer \{(.*?)\n\}", src, re.S)
+    names = re.findall(r"^\s*pub (\w+):", m.group(1), re.M)
+    hf = mirrun.get_fn("bin", "::has_finished", sig="&DefaultGatherer")
+    ex2 = engine.Executor(hf)
+    ev2 = ex2.run()
+    q2 = Q(ex2.ctx)
+    r2 = [e for e in ev2 if e.kind == "return"]
+    reads = {names[int(re.search(r"\.(\d+)$", k).group(1))]: v for k, v in ex2.initial.items() if re.match(r"^\(\*_1\)\.\d+$", k)}
+    if len(r2) != 1 or not {"ok", "errors", "expected_responses"} <= set(reads):
+        bad.append("has_finished does not compare ok + errors with expected_responses (reads %s)" % sorted(reads))
+    else:
+        want = "(bvuge (bvadd %s %s) %s)" % (reads["ok"].term, reads["errors"].term, reads["expected_responses"].term)
+        ovf = [e.guard for e in ev2 if e.kind == "assert"]
+        v, _, d = q2([r2[0].guard, engine.NOT("(= %s %s)" % (r2[0].env["_0"].term, want))])
+        if v != "unsat":
+            bad.append("has_finished is not `ok + errors >= expected_responses` (%s)" % v)
+        if set(reads) - {"ok", "errors", "expected_responses"}:
+            bad.append("has_finished also depends on %s" % sorted(set(reads) - {"ok", "errors", "expected_responses"}))
+    q.n += q2.n
+    q.secs += q2.secs
+    res["functions"].append(hf.name)
     if bad:
         return dict(res, verdict="counterexample", text="; ".join(bad), model={"problems": bad},
                     queries=q.n, solver_s=q.secs, replay={"reproduced": False, "why": "no native replay for this obligation"})
